@@ -332,7 +332,8 @@ pub struct Script {
 pub fn small_script(rng: &mut Rng, o: &mut Out, with_preamble: bool) -> Script {
     // small geometries so that every operation boundary can be enumerated
     let nslots = *rng.pick(&[4usize, 4, 5, 6]);
-    let variant = rng.below(6); // 0..3 small, 4 = many losses (rows with index >= 8), 5 = image fills the slot, losses = capacity
+    let variant = rng.below(7); // 0..3 small, 4 = many losses (rows with index >= 8), 5 = image fills the slot, losses = capacity,
+                                // 6 = many losses all covered by the first coded fragment delivered (a stored row of all ones)
     let block = if variant == 5 { 256 } else { *rng.pick(&[1024usize, 4096]) };
     let slot = if variant == 5 { (17408 / block + 1) * block } else { ((17408 / block) + 1 + rng.range(0, 2) as usize) * block };
     let geo = Geo { nslots, slot, block };
@@ -340,23 +341,42 @@ pub fn small_script(rng: &mut Rng, o: &mut Out, with_preamble: bool) -> Script {
     let room = slot - 0x4400;
     let cap = capacity(slot, sz);
     let n = match variant {
-        4 => rng.range(20, 40).min((room / sz) as u64) as usize,
+        4 | 6 => rng.range(24, 40).min((room / sz) as u64) as usize,
         5 => (room / sz).min(cap + 15),
         _ => rng.range(2, 14).min((room / sz) as u64) as usize,
     };
     let img = Img::make(rng, sz, n.max(1));
     let n = img.n;
     let nloss = match variant {
-        4 => rng.range(9, 14).min(cap.min(n) as u64) as usize,
+        4 | 6 => rng.range(9, 14).min(cap.min(n) as u64) as usize,
         5 => cap.min(n),
         _ => rng.range(0, (cap.min(n).min(4)) as u64) as usize,
     };
-    o.stat(&format!("script-variant-{}", ["small", "small", "small", "small", "many-losses", "losses=capacity"][variant as usize]));
+    o.stat(&format!("script-variant-{}", ["small", "small", "small", "small", "many-losses", "losses=capacity", "all-ones-row"][variant as usize]));
     let mut idx: Vec<usize> = (0..n).collect();
     rng.shuffle(&mut idx);
-    let lost: Vec<usize> = idx[..nloss].to_vec();
+    let mut lost: Vec<usize> = idx[..nloss].to_vec();
     let ncoded = nloss + rng.range(0, 3) as usize;
-    let seq = delivery(rng, n, &lost, ncoded, o);
+    let mut seq = delivery(rng, n, &lost, ncoded, o);
+    if variant == 6 {
+        // lose fragments from the support of one coded fragment and deliver that coded fragment first
+        let k = rng.range(1, 6) as u32;
+        if let Some(row) = crate::rows::parity_row(k, n, crate::rows::ffr()) {
+            let mut sup: Vec<usize> = (0..n).filter(|i| row[*i]).collect();
+            rng.shuffle(&mut sup);
+            sup.truncate(nloss.max(9).min(cap));
+            if sup.len() >= 9 {
+                lost = sup;
+                seq = (1..=n as u32).filter(|i| !lost.contains(&(*i as usize - 1))).collect();
+                seq.push(n as u32 + k);
+                for kk in 1..=(lost.len() as u32 + 4) {
+                    if kk != k {
+                        seq.push(n as u32 + kk);
+                    }
+                }
+            }
+        }
+    }
     let mut ops = vec![format!("start {} {}", sz, n)];
     for i in &seq {
         ops.push(format!("seg {} {}", i, hex(&img.fragment(*i))));
